@@ -603,6 +603,13 @@ class NetRun:
         if len(markers) != len(items) or len(logic) != len(items):
             self.add(vio("reply-missing", {"note": "not every line of the chunk was processed", "lines": [i[0] for i in items],
                                            "processed": [m[1][1] for m in markers]}, model_kind="chunk"))
+            # C04's side of the same event: what the accepted lines of the chunk say must be in the tree all the same
+            window = (int(t_before + off), int(t_after + off))
+            for text, _ending in items:
+                _tier, flds = classify(text, self.version)
+                if flds is not None:
+                    self.model.on_line(flds, window)
+            self._check_state("chunk of which not every line was processed")
             raise StopRun()
         window = (int(t_before + off), int(t_after + off))
         bounds = [m[0] for m in markers] + [10 ** 12]
